@@ -139,6 +139,8 @@ def rule_lexical(body, applied):
         ('R1', r'\b(u16|u32|u64)::from_be_bytes\(', r'\1_from_be_bytes_v('),
         ('R2', r'\.extend\(', '.extend_v('),
         ('R18', r'\.as_bytes\(\)\.into\(\)', '.as_bytes().to_vec()'),
+        ('R21', r'\.chunks_exact\(', '.chunks_exact_v('),
+        ('R22', r'\bProjectivePoint::GENERATOR\b', 'ProjectivePoint::generator_v()'),
         ('D2', r'\buse\s+[A-Za-z_][A-Za-z0-9_:{}, *]*;', ''),
         ('R3', r'\|_\|', '|_v0|'),
         ('R3', r'\.map_err\((BSVErrors::[A-Za-z0-9_]+)\)', r'.map_err(|e_v0| \1(e_v0))'),
@@ -297,6 +299,35 @@ def rule_defunctionalise(body, applied):
     return body
 
 
+def rule_and_then_chain(body, applied):
+    """R17: `E0.and_then(|_| E1).and_then(|_| E2) ... ?;` (closures capturing &mut, which Verus cannot take)
+    -> `E0?; E1?; E2?; ...` - the same short-circuiting sequence; every Ei is copied token-for-token."""
+    cnt = 0
+    while True:
+        m, _ = mask(body)
+        i = m.find('.and_then(|_v0|')
+        if i < 0:
+            break
+        # statement start: previous ';' or '{' or '}'
+        st = max(m.rfind(';', 0, i), m.rfind('{', 0, i), m.rfind('}', 0, i)) + 1
+        parts = [body[st:i].strip()]
+        j = i
+        while m.startswith('.and_then(|_v0|', j):
+            po = j + len('.and_then')
+            pc = match_close(m, po)
+            parts.append(body[po + len('(|_v0|'):pc].strip())
+            j = pc + 1
+            while j < len(m) and m[j].isspace():
+                j += 1
+        if not m.startswith('?;', j):
+            raise GenError('R17: and_then chain not terminated by `?;`')
+        body = body[:st] + '\n' + '\n'.join(p_ + '?;' for p_ in parts) + body[j + 2:]
+        cnt += 1
+    if cnt:
+        applied.append({'rule': 'R17', 'chains': cnt})
+    return body
+
+
 def rule_for_range_with_continue(body, applied):
     """R13: `for i in A..B { ..continue.. }` (Verus' for-loops do not support `continue`)
     -> `{ let mut idx_rK = A; let end_rK = B; while idx_rK < end_rK { let i = idx_rK; idx_rK += 1; ... } }`."""
@@ -435,6 +466,12 @@ def splice(body, contract, applied):
                         body, k = re.subn(r'\b' + re.escape(nm) + r'\.into\(\)', nm + '.to_vec()', body)
                     n += k
                 applied.append({'rule': 'R18', 'pattern': '<byte slice>.into() -> .to_vec() (From<&[u8]> for Vec<u8>)', 'count': n})
+            elif arg.strip() == 'R23':
+                n = 0
+                for a_, b_ in ((r'\.ends_with\(', '.ends_with_v('), (r'\.to_lowercase\(\)', '.to_lowercase_v()'), (r'\.trim_end_matches\(', '.trim_end_matches_v('), (r'\.parse::<u32>\(\)', '.parse_u32_v()')):
+                    body, k = re.subn(a_, b_, body)
+                    n += k
+                applied.append({'rule': 'R23', 'pattern': 'str methods -> shim trait methods with uninterpreted results', 'count': n})
             elif arg.strip() == 'R19':
                 body, n = re.subn(r'\.try_into\(\)', '.try_into_v()', body)
                 applied.append({'rule': 'R19', 'pattern': 'slice.try_into() -> slice.try_into_v() (std slice-to-array TryFrom)', 'count': n})
@@ -796,6 +833,7 @@ def emit_fn(contract, verified, info):
     body = rule_iter_mut_for_each(body, applied)
     body = rule_iter_chains(body, applied)
     body = rule_defunctionalise(body, applied)
+    body = rule_and_then_chain(body, applied)
     body = rule_for_over_vec(body, applied)
     body = rule_for_range_with_continue(body, applied)
     body, nloops = splice(body, contract, applied)
